@@ -253,7 +253,11 @@ Section World.
                 (* try: *)
                 match sort_entries K D lt pick_min (wstash s1) with
                 | None =>                              (* model fuel; unreachable *)
-                    let '(_, w3) := w_close_w id w2 in (Some AssertionError, ws_taint s1, w3)
+                    (* finally: handle.close(); an exception there replaces the first one *)
+                    match w_close_w id w2 with
+                    | (Raise e', w3) => (Some e', ws_taint s1, w3)
+                    | (Ok _, w3) => (Some AssertionError, ws_taint s1, w3)
+                    end
                 | Some l =>
                     let s2 := ws_stash s1 l in
                     match write_all id (map snd l) w2 with
